@@ -125,7 +125,7 @@ def cases(ctx):
             elif k < .56:
                 ops.append(['order_after', pi, gen_key(r, nm, isdup), gen_key(r, nm, isdup)])
             elif k < .64:
-                ops.append(['sort', pi, r.choice(['default', 'lower', 'len-lower', 'rev', 'pkg-first', 'len', 'first-letter', 'constant'])])
+                ops.append(['sort', pi, r.choice(['default', 'lower', 'len-lower', 'rev', 'pkg-first', 'len', 'first-letter', 'constant', 'reentrant'])])
             elif k < .73:
                 key = gen_key(r, nm, isdup) if r.random() < .7 else r.choice(['Brand-New', 'x-new'])
                 ops.append(['set', pi, key, ids.next('sv') + ('\n ' + ids.next('sv') if r.random() < .3 else '')])
@@ -306,6 +306,11 @@ def _history(ctx, case, f, model, paras):
                     if op[2] == 'default':
                         # documented default: case-insensitive by field name (default_field_sort_key), stable
                         live.sort_fields()
+                        expected = sorted(fields, key=lambda fl: fl['name'].lower())
+                    elif op[2] == 'reentrant':
+                        # the key function looks at the paragraph being sorted (read-only): `in`, len(), iteration
+                        ctx.count('sort-key-reads-the-paragraph-being-sorted')
+                        live.sort_fields(key=lambda n: ((True if dup_impl else n in live), len(list(live.keys())) > 0, n.lower()))
                         expected = sorted(fields, key=lambda fl: fl['name'].lower())
                     else:
                         live.sort_fields(key=SORT_KEYS[op[2]])
